@@ -176,6 +176,8 @@ def correspond(ctx, scale):
                 ops = [rng.choice(['eval', 'frozen'])] + ops  # the permitted exception: first call initialises
             if f['kmeans'] and wi % 2 == 0:
                 ops = ['bad-eval'] + ops          # a failing call BEFORE the initialising one
+            if f['name'].endswith('-scarce'):
+                ops = ['train', 'frozen', 'train', 'eval', 'decode'] + ops     # every code dies at once after a scarce training step: the pure calls that follow still change nothing
             trained = False
             last_idx = None
             trace = []
